@@ -626,4 +626,29 @@ Proof.
     unfold eval_regular. intro Hle. exfalso. unfold side_of in Hs. exact (OFieldKit.lt_not_le F _ _ Hs Hle).
 Qed.
 
+Lemma RM_last_stride ds s : RM ds s -> ds <> [] -> nth (length ds - 1) (map d_stride ds) 0%Z = 1%Z.
+Proof.
+  induction 1 as [|d ds s HR IH Hs Hn]; intro Hne; [contradiction|].
+  destruct ds as [|d' ds'].
+  - inversion HR; subst. cbn [length map nth Nat.sub]. congruence.
+  - cbn [length map] in *. replace (S (S (length ds')) - 1) with (S (S (length ds') - 1)) by lia. cbn [nth]. apply IH. discriminate.
+Qed.
+Lemma grid_point_length g (grids : list (list K)) : grid_in g grids -> length (grid_point grids g) = length grids.
+Proof. induction 1; cbn [grid_point length]; lia. Qed.
+
+Theorem grideval_agrees_pointwise (t : @table A) (grids : list (list K)) (s : Z) (a : @ndsparse A) :
+  Forall wfd (dims t) -> RM (dims t) s -> Forall (fun xs : list K => xs <> []) grids -> grideval t grids = GOk a ->
+  forall g cs, grid_in g grids ->
+  searchcenters t (grid_point grids g) = CFound cs ->
+  Forall2 (fun d x => side_of d x = true) (dims t) (grid_point grids g) ->
+  nd_get a g = ndsplineeval t (grid_point grids g) cs 0.
+Proof.
+  intros Hwf HRM Hgne Hev g cs Hg Hsc Hside.
+  destruct (grideval_inv t grids a Hev) as [Hne [Hlen _]].
+  rewrite (grideval_spec t grids s a Hwf HRM Hgne Hev g Hg).
+  apply grid_spec_pointwise; try assumption.
+  - unfold ndim_of, strides_of. apply (RM_last_stride _ _ HRM Hne).
+  - rewrite grid_point_length by exact Hg. exact Hlen.
+Qed.
+
 End Sums.
